@@ -559,7 +559,7 @@ def _check_setters_getters(ctx, r, objs):
         if len(routines) != 1:
             raise AnalysisError(f'{sf.key}: encoder helper call not recognised')
         h = routines[0]
-        hfm = _fmt_names_in(h.node, objs)
+        hfm = list(dict.fromkeys(_fmt_names_in(h.node, objs)))        # each format object once, in order of first use
         gobj = objs[gfm[0]]
         family_objs = [nm for nm, o in objs.items() if (o.get('exp_bits'), o.get('mantissa_bits'), o.get('bias'), o['__class__']) ==
                        (gobj.get('exp_bits'), gobj.get('mantissa_bits'), gobj.get('bias'), gobj['__class__'])]
@@ -594,8 +594,16 @@ def _check_setters_getters(ctx, r, objs):
         i2b = [n for n in own_walk(h.node) if isinstance(n, ast.Call) and ast.unparse(n.func).split('.')[-1] == 'int2bitstore']
         if not i2b:
             raise AnalysisError(f'{h.key}: int2bitstore call not recognised')
+        class _FmtAttrs(ast.NodeTransformer):
+            # `1 + FMT.exp_bits + FMT.mantissa_bits`: the constructor arguments of the module-level format object
+            def visit_Attribute(self, n):
+                nm = n.value.id if isinstance(n.value, ast.Name) else n.value.attr if isinstance(n.value, ast.Attribute) else None
+                if nm in objs and isinstance(objs[nm].get(n.attr), (int, bool, str)):
+                    return ast.copy_location(ast.Constant(value=objs[nm][n.attr]), n)
+                return self.generic_visit(n)
+        import copy as _copy
         for c in i2b:
-            n_bits, signed = fold(c.args[1]), fold(c.args[2])
+            n_bits, signed = fold(_FmtAttrs().visit(_copy.deepcopy(c.args[1]))), fold(c.args[2])
             if n_bits != width or signed is not False or tuple(e['allowed_lengths']) != (width,):
                 r.fail(h.key, c, f"'{e['name']}': code width is {width} bits (1+exp+mantissa); encoder writes {n_bits} bits "
                        f"signed={signed}; registry allows {e['allowed_lengths']}", loc=h.loc(c))
@@ -769,11 +777,15 @@ def _check_e8m0_mxint_bfloat_scale(ctx, r):
         r.ok(i2b[0])
     # ---- bfloat
     s = m.funcs.get('bitstore_helpers:bfloat2bitstore')
-    if s is None:
-        raise AnalysisError('anchor vanished: bfloat2bitstore')
-    # which float32 is packed and which two bytes of it are kept, for each byte order (partial evaluation of the encoder)
     from .peval import PEval, Unsupported, is_const
-    bp = [p for p in s.params() if 'endian' in p]
+    bf_setters = None
+    if s is None:
+        # the flag-taking encoder is gone (say, split into one routine per byte order): judge what each registered setter stores
+        bf_setters = {True: m.funcs.get('bits:Bits._setbfloatbe'), False: m.funcs.get('bits:Bits._setbfloatle')}
+        if not all(bf_setters.values()):
+            raise AnalysisError('anchor vanished: bfloat2bitstore')
+    # which float32 is packed and which two bytes of it are kept, for each byte order (partial evaluation of the encoder)
+    bp = [p for p in s.params() if 'endian' in p] if s is not None else ['-']
     if len(bp) != 1:
         raise AnalysisError('bfloat2bitstore: byte-order parameter not recognised')
 
@@ -806,10 +818,25 @@ def _check_e8m0_mxint_bfloat_scale(ctx, r):
         return None
     for be, want in ((True, (0, 1)), (False, (1, 0))):
         try:
-            pe = PEval(m, s, {bp[0]: be}).run()
+            if bf_setters is None:
+                pe = PEval(m, s, {bp[0]: be}).run()
+                vals = list(pe.returns)
+            else:
+                s = bf_setters[be]
+                pe = PEval(m, s, {})
+                pe.run()
+                vals = [env_['self._bitstore'] for env_ in pe.final_envs if 'self._bitstore' in env_]
+                if not vals:
+                    # the setter still calls a routine of its own: evaluate that one
+                    callee = [g for cs in ctx.R.analyse(s, 'Bits').calls for (g, _c) in cs.targets if g.mod == 'bitstore_helpers']
+                    if len(callee) != 1:
+                        raise AnalysisError(f'{s.key}: bfloat encoder routine not recognised')
+                    s = callee[0]
+                    pe = PEval(m, s, {}).run()
+                    vals = list(pe.returns)
         except Unsupported as e:
             raise AnalysisError(f'bfloat2bitstore: {e}')
-        got = {kept(v) for v in pe.returns}
+        got = {kept(v) for v in vals}
         if None in got or not got:
             raise AnalysisError('bfloat2bitstore form not recognised')
         if got != {want}:
